@@ -91,9 +91,27 @@ def canonical_problem(x):
     return None
 
 
+def equivalent(x, y):
+    """The harness's OWN statement of "is the fill value" (independent of the library's _utils.equivalent, which is code under test),
+    with the library's documented meaning: the same value bit for bit — NaN equals the same NaN, -0.0 differs from +0.0, and a NaN
+    with the sign bit set differs from one without (log(-1.5) next to a fill value of +nan is kept, which is not claimed wrong)."""
+    x, y = np.asarray(x), np.asarray(y)
+    dt = np.result_type(x.dtype, y.dtype)
+    if dt.kind == "c":
+        return equivalent(x.real, y.real) & equivalent(x.imag, y.imag)
+    if dt.kind != "f":
+        return x == y
+    x, y = np.broadcast_arrays(x.astype(dt), y.astype(dt))
+    u = {2: np.uint16, 4: np.uint32, 8: np.uint64}.get(dt.itemsize)
+    if u is None:  # long double: compare the bytes
+        xb = np.ascontiguousarray(x).view(np.uint8).reshape(x.shape + (dt.itemsize,))
+        yb = np.ascontiguousarray(y).view(np.uint8).reshape(y.shape + (dt.itemsize,))
+        return (xb == yb).all(axis=-1)
+    return np.ascontiguousarray(x).view(u) == np.ascontiguousarray(y).view(u)
+
+
 def nofill_problem(x):
     import sparse
-    from sparse.numba_backend._utils import equivalent
 
     if isinstance(x, sparse.DOK):
         vals = np.array(list(x.data.values())) if x.data else np.array([])
